@@ -45,21 +45,31 @@ def dist2(x, y):
     return (x[0] - y[0])**2 + (x[1] - y[1])**2
 
 
-def evaluate_run(eng, SL, gamma, cell, qo, concrete=None):
-    xa, xb, piece = cell
+def evaluate_run(eng, SL, gamma, cell, qo, concrete=None, prepared=None):
     L = gamma.gamma_length
-    if not concrete:
-        xa, xb = slsym.exact(xa), slsym.exact(xb)   # exact-constant mode: the nodes stay symbolic constants
-    if concrete:
-        t, ta, tb, x_hat = concrete
-    else:
-        t, ta, tb, x_hat = eng.reals('t ta tb xh')
-        eng.assume(ta < tb)
+    if prepared is not None:
+        # a real mesh element registered by the real constructor / _init_elems (history variant): concrete geometry
+        op, trial = prepared
+        xa, xb = trial.space_interval
+        piece = trial.gamma_space
+        ta, tb = trial.time_interval
+        t, x_hat = eng.reals('t xh')
         eng.assume(x_hat >= 0)
         eng.assume(x_hat <= L)
-    op = SL.SingleLayerOperator(slsym.FakeMesh(gamma), quad_order=qo)
-    trial = slsym.Elem(ta, tb, xa, xb, piece)
-    op._init_elems([trial])
+    else:
+        xa, xb, piece = cell
+        if not concrete:
+            xa, xb = slsym.exact(xa), slsym.exact(xb)   # exact-constant mode: the nodes stay symbolic constants
+        if concrete:
+            t, ta, tb, x_hat = concrete
+        else:
+            t, ta, tb, x_hat = eng.reals('t ta tb xh')
+            eng.assume(ta < tb)
+            eng.assume(x_hat >= 0)
+            eng.assume(x_hat <= L)
+        op = SL.SingleLayerOperator(slsym.FakeMesh(gamma), quad_order=qo)
+        trial = slsym.Elem(ta, tb, xa, xb, piece)
+        op._init_elems([trial])
     x = gamma.eval(x_hat)  # the point on the curve (forks over the pieces)
     if concrete:
         return op.evaluate(trial, t, x_hat, x)
@@ -77,14 +87,19 @@ def evaluate_run(eng, SL, gamma, cell, qo, concrete=None):
     def quad(a, b, nodes01):
         tot = SR.const(0)
         for p, w in zip(nodes01, wts):
-            y = SR.lift(a) + (SR.lift(b) - SR.lift(a)) * float(p)
-            gy = piece(np.array([y], dtype=object))
+            if isinstance(a, SR) or isinstance(b, SR):
+                y = SR.lift(a) + (SR.lift(b) - SR.lift(a)) * float(p)
+                gy = piece(np.array([y], dtype=object))
+            else:
+                # plain doubles (real mesh element): the node is formed in double arithmetic, as the code does
+                gy = piece(np.array([a + (b - a) * p]))
             r2 = dist2(xpt, (gy[0, 0], gy[1, 0]))
             tot = tot + SR.lift(float(w)) * kernel_spec(eng, SL, r2, t, ta, tb)
         return (b - a) * tot
     if t <= ta:
         spec, spec_raises = SR.const(0), False
-    elif (x_hat >= xa * ONE_PLUS) and (x_hat <= xb * ONE_MINUS):
+    elif (x_hat >= (xa * ONE_PLUS if isinstance(xa, SR) else SR.lift(xa * (1 + 1e-10)))) and \
+            (x_hat <= (xb * ONE_MINUS if isinstance(xb, SR) else SR.lift(xb * (1 - 1e-10)))):
         spec_raises = False
         spec = SR.const(0)
         for (a, b, nodes) in ((xa, x_hat, mpts), (x_hat, xb, pts)):
@@ -108,7 +123,7 @@ def evaluate_run(eng, SL, gamma, cell, qo, concrete=None):
         return ('raise', spec_raises, raised is not None)
     if isinstance(val, np.ndarray):
         val = val.reshape(-1)[0]
-    ok, m = eng.prove_identity(val, spec, 'evaluate=spec', rtol=1e-12)
+    ok, m = eng.prove_identity(val, spec, 'evaluate=spec', rtol=1e-9 if prepared is not None else 1e-12)
     zero_ok = True
     if t <= ta:
         zero_ok = isinstance(val, (int, float)) and val == 0
@@ -178,6 +193,8 @@ def replay(rp):
     SL = importlib.import_module('src.single_layer')
     if rp['kind'] == 'exact':
         return exact_concrete(rp)
+    if rp['kind'] == 'history':
+        return history_concrete(rp)
     curve = rp['curve']
     gamma = slsym.curve_pieces(curve)
     cells = slsym.space_leaves(gamma, 2)
@@ -240,6 +257,62 @@ def replay(rp):
             return abs(got - ref) > tol * max(abs(ref), 1e-9)
         except Exception:
             return True
+
+
+def history_worker(case):
+    """Pre-evaluated curve points must be those of *this* element also after a history: an operator registers the
+    leaves, a leaf is bisected (space or time), the elements are registered again (second operator on the same mesh,
+    as the adaptive loop does), and the children are evaluated against the specification."""
+    curve, ileaf, ax, qo = case
+    SL, SLE, Q, P = load()
+    M = importlib.import_module('src.mesh')
+    M.print = models.noprint
+    gamma = slsym.curve_pieces(curve)
+    eng = Engine(timeout_ms=60000)
+    res = dict(stats=None, violations=[], inconclusive=[], samples=[], functions=[
+        'src/single_layer.py:SingleLayerOperator.__init__', 'src/single_layer.py:SingleLayerOperator._init_elems',
+        'src/single_layer.py:SingleLayerOperator.evaluate', 'src/mesh.py:Mesh.refine_axis'], evaluations=0, nontrivial=0)
+    saved_np = P.np
+    P.np = np
+    try:
+        mesh = M.MeshParametrized(gamma)
+    finally:
+        P.np = saved_np
+    leaves = list(mesh.leaf_elements)
+    SL.SingleLayerOperator(mesh, quad_order=qo)           # first registration
+    children = mesh.refine_axis(leaves[ileaf % len(leaves)], ax)
+    op2 = SL.SingleLayerOperator(mesh, quad_order=qo)     # registered again after the refinement
+    for child in children:
+        try:
+            for pr in eng.explore(lambda: evaluate_run(eng, SL, gamma, None, qo, prepared=(op2, child))):
+                res['evaluations'] += 1
+                bad = None
+                if pr.status == 'exc':
+                    bad = 'evaluate raised %r at %s' % (pr.exc, pr.tb[-1])
+                else:
+                    res['nontrivial'] += 1
+                    kind, p_, q_ = pr.value
+                    if kind == 'value' and not p_:
+                        bad = 'value differs from the specification after the history'
+                    elif kind == 'raise' and p_ != q_:
+                        bad = 'assertion behaviour differs from the specification'
+                if bad:
+                    mm = eng.feasible(True)[1]
+                    vals = {k: str(v) for k, v in eng.model_inputs(mm).items() if v is not None}
+                    rp = dict(kind='history', curve=curve, ileaf=ileaf, ax=ax, qo=qo, values=vals,
+                              child=[float(child.space_interval[0]), float(child.space_interval[1])])
+                    res['violations'].append(dict(signature='evaluate-history:%s' % curve, what='%s [%s: leaf %d registered, '
+                                                  'bisected in %s, registered again; child %r; %s]' %
+                                                  (bad, curve, ileaf, 'space' if ax else 'time', child, vals), replay=rp,
+                                                  reproduced=replay(rp)))
+                    break
+        except Inconclusive as e:
+            res['inconclusive'].append('history %r: %s' % (case, e))
+        if res['violations']:
+            break
+    res['samples'].append(dict(history=[curve, ileaf, 'space' if ax else 'time']))
+    res['stats'] = eng.stats
+    return res
 
 
 # -- X: evaluate_exact ------------------------------------------------------------------------------------
@@ -310,6 +383,41 @@ def exact_worker(mode):
     return res
 
 
+def history_concrete(rp):
+    """Plain floats: same history on the unmodified modules; the child's value at a point outside it is compared with
+    the value a FRESH operator (no history) gives for an identical element."""
+    SL = importlib.import_module('src.single_layer')
+    M = importlib.import_module('src.mesh')
+    gamma = slsym.curve_pieces(rp['curve'])
+    with slsym.unpatched():
+        try:
+            mesh = M.MeshParametrized(gamma)
+            leaves = list(mesh.leaf_elements)
+            SL.SingleLayerOperator(mesh, quad_order=4)
+            children = mesh.refine_axis(leaves[rp['ileaf'] % len(leaves)], rp['ax'])
+            op2 = SL.SingleLayerOperator(mesh, quad_order=4)
+            for child in children:
+                fresh_elem = slsym.Elem(child.time_interval[0], child.time_interval[1], child.space_interval[0],
+                                        child.space_interval[1], child.gamma_space)
+                fresh = SL.SingleLayerOperator(slsym.FakeMesh(gamma), quad_order=4)
+                fresh._init_elems([fresh_elem])
+                L = gamma.gamma_length
+                for xh in np.linspace(0, L, 41):
+                    x = gamma.eval(xh)
+                    for t in (child.time_interval[1] + 0.5, child.time_interval[1]):
+                        try:
+                            a_ = op2.evaluate(child, t, xh, x)
+                            b_ = fresh.evaluate(fresh_elem, t, xh, x)
+                        except AssertionError:
+                            continue
+                        if abs(float(np.asarray(a_).reshape(-1)[0]) - float(np.asarray(b_).reshape(-1)[0])) > 1e-10 * (
+                                1e-12 + abs(float(np.asarray(b_).reshape(-1)[0]))):
+                            return True
+            return False
+        except Exception:
+            return True
+
+
 def exact_concrete(rp):
     import warnings
     SL = importlib.import_module('src.single_layer')
@@ -355,6 +463,10 @@ def run(out):
             cases.append((curve, i, qo))
     for c, r in zip(cases, report.pmap('checks.c07', 'evaluate_worker', cases)):
         report.merge_worker(out, r, part='E evaluate ' + c[0])
+    hc = [(c, i, ax, qo) for c in (['UnitSquare', 'Circle'] if quick else ['UnitSquare', 'Circle', 'LShape'])
+          for i in ((0, 3) if quick else (0, 1, 2, 3)) for ax in (0, 1)]
+    for c, r in zip(hc, report.pmap('checks.c07', 'history_worker', hc)):
+        report.merge_worker(out, r, part='H evaluate after a register / bisect / register history')
     for r in report.pmap('checks.c07', 'exact_worker', ['generic', 'at_a', 'at_b']):
         report.merge_worker(out, r, part='X evaluate_exact')
     out.bounds = dict(x_hat='symbolic real in [0, L]', times='symbolic reals t, t_a < t_b', quad_order=qo,
